@@ -89,6 +89,12 @@ def _cell(draw, max_b, max_n):
 def _spec(draw, tier):
     ncell = draw(st.integers(1, 3))
     cells = [draw(_cell(6, 3)) for _ in range(ncell)]
+    if ncell > 1 and draw(st.integers(0, 2)) == 0:
+        # same compartment count in every branch of every cell: the default solvers accept such a network even when
+        # its cells differ in depth and shape (they refuse different per-level compartment counts)
+        n = draw(st.integers(1, 3))
+        for c in cells:
+            c["branches"] = [(b * n)[:n] for b in c["branches"]]
     N = sum(len(b) for c in cells for b in c["branches"])
     T = draw(st.integers(4, 10))
     stim = draw(gn.stimuli(N, T, max_stim=2, min_stim=1))
